@@ -1,4 +1,5 @@
 import DcVerif.Lemmas.Ring
+import DcVerif.Lemmas.RingMulti
 /-!
 # C04 — every published event is delivered exactly once, in order (single-producer pipelines)
 
@@ -131,5 +132,24 @@ example : (runX (mk 2 1 (fun _ => 1) false [1, 1]) demoSched).p.pc = .done ∧
 
 example : Reachable (runX (mk 2 1 (fun _ => 1) false [1, 1]) demoSched) :=
   ⟨2, 1, fun _ => 1, false, [1, 1], demoSched, by decide, by intro k _; simp, by decide, rfl⟩
+
+/-! ## multi-producer pipelines
+
+No delivery theorem is claimed for the multi-producer sequencer: the statement is false for it (known finding F8). The
+witness below is schedule-exact and agrees with what the real code does under the same schedule (harness corpus case
+`F7-witness`): two writers claim 1 and 2, the second publishes first, the first publishes last; `drain` waits for the cursor
+(1) only, so the handler terminates having been handed `[1]` although 2 was written and its `write` call had returned. -/
+section Multi
+open RingMulti
+
+def lostRun : MSt := runM (mkM 4 1 (fun _ => 1) false [[1], [1]])
+  ((List.replicate 6 (MTid.writer 0)) ++ (List.replicate 20 (MTid.writer 1)) ++ (List.replicate 20 (MTid.writer 0)) ++
+   (List.replicate 12 (MTid.cons 0 0)) ++ (List.replicate 12 MTid.drainer) ++ (List.replicate 8 (MTid.cons 0 0)))
+
+theorem c04_multi_stranded_event_lost :
+    (lostRun.wr 0).pc = .done ∧ (lostRun.wr 1).pc = .done ∧ lostRun.dr.pc = .done ∧ (lostRun.s.cons 0 0).pc = .done ∧
+    lostRun.written = [(2, 1), (1, 0)] ∧ (lostRun.s.cons 0 0).log = [1] := by decide +kernel
+
+end Multi
 
 end C04
